@@ -161,6 +161,10 @@ def build(rng, parents=None, compressed_ok=True):
         sk = cert_sk
         if rng.random() < 0.5:
             tw = rng.randbytes(rng.choice([32, 32, 1, 20, 64]))
+            if rng.random() < 0.15:
+                # a tweak of zero bytes (or of 0xff): it is the HMAC key, not the scalar -
+                # the key it leads to is as different from the certifier's as any other
+                tw = rng.choice([bytes(32), bytes(1), bytes(20), b"\xff" * 32, bytes(31) + b"\x01"])
             tk = tweaked_key(cert_sk, tw)
             if tk is not None:
                 el["tweak"] = tw.hex()
